@@ -63,7 +63,6 @@ struct Shared {
     /// shard write locks currently held, per thread
     holding_shard_write: HashMap<usize, usize>,
     log: Vec<Value>,
-    lock_log: Vec<Value>,
     abort: bool,
 }
 
@@ -156,9 +155,9 @@ impl Controller for Sched {
             *g.holding_shard_write.entry(me).or_insert(0) += 1;
         }
         if me != 0 && (!self.is_shard(lock) || g.relevant.contains(&lock)) {
-            let n = g.lock_log.len();
-            g.lock_log
-                .push(json!({"n":n,"thr":me,"lock":lock,"mode":format!("{:?}", mode),"what":"acq"}));
+            // after the acquisition, still inside the critical section: the log order is the lock order
+            g.log
+                .push(json!({"ev":"acq","thr":me,"lock":lock,"mode":format!("{:?}", mode)}));
         }
     }
     fn releasing(&self, lock: u64, mode: Mode) {
@@ -170,9 +169,8 @@ impl Controller for Sched {
             }
         }
         if me != 0 && (!self.is_shard(lock) || g.relevant.contains(&lock)) {
-            let n = g.lock_log.len();
-            g.lock_log
-                .push(json!({"n":n,"thr":me,"lock":lock,"mode":format!("{:?}", mode),"what":"rel"}));
+            g.log
+                .push(json!({"ev":"rel","thr":me,"lock":lock,"mode":format!("{:?}", mode)}));
         }
         // threads blocked on this lock may try again
         let waiters: Vec<usize> = g
@@ -325,7 +323,6 @@ fn run_controlled(
             relevant: relevant_shards(program),
             holding_shard_write: HashMap::new(),
             log: Vec::new(),
-            lock_log: Vec::new(),
             abort: false,
         }),
         cv: Condvar::new(),
